@@ -21,6 +21,8 @@ def run(ctx):
                       "the fact env_in_token(t) == true holds for the current value of t on every path (the gate keeps "
                       "`$1`, `$(...)`, `NAME='..$X..'` and text without a reference away from the rewriter, whose own "
                       "pattern is wider)")
+    ctx.rule("R10-7", "an unset name expands to nothing: remove_env removes the name from the process environment AND the "
+                      "shell map on every successful path (both are read by expand_one_env; the analysis of C09 R09-4)")
     ctx.rule("R10-3", "$? formats previous_status, $$ formats getpid()")
     for crate in ctx.crates:
         b = crate.fn("shell::expand_env")
@@ -33,6 +35,10 @@ def run(ctx):
         rescan_rule(ctx, crate, b, scanners)
         fixpoint_rule(ctx, crate, b, scanners)
         gate_rule(ctx, crate, b)
+        re_ = crate.fn("shell::Shell::remove_env")
+        if ctx.require(re_ is not None, "R10-7", "R10-7|anchor", "Shell::remove_env not found"):
+            from .c09 import unset_everywhere
+            unset_everywhere(ctx, crate, re_, "R10-7")
         res = etag.run_sites(ctx, "R10-2", crate, fn_filter=lambda p: p == "shell::expand_env")
         ctx.floor("R10-2", crate, "inspections in expand_env", len(res), 1)
         c03.dollar_rule(ctx, crate)
